@@ -90,6 +90,17 @@ MixLits == { Src("mixlit", <<>>, EArr(<<MixEls[i], MixEls[j]>>), TRUE) : i \in D
            \cup { Src("emptyconcat", <<>>, EBin("+", ab[1], ab[2]), TRUE) :
                     ab \in { xy \in {EArr(<<>>), EArr(<<EArr(<<>>)>>), EArr(<<EMap(<<>>, <<>>)>>), EArr(<<EArr(<<EArr(<<>>)>>)>>), EArr(<<EArr(<<ENum(I(1))>>)>>)}
                                       \X {EArr(<<>>), EArr(<<EArr(<<>>)>>), EArr(<<EArr(<<ENum(I(1))>>)>>)} : BinOpType("+", xy[1].ty, xy[2].ty).ok } }
+\* a variable two or more literals deep, next to literals of constants, in both orders: the documentation does not
+\* settle whether such a literal is still "a literal of constants" (Appendix B); whatever the verdict, it is a verdict
+DeepV == EVar("v", TArr(T_num))
+DeepLits == { Src("deeplitvar", <<SInfer("v", EArr(<<ENum(I(1))>>))>>, e, FALSE) :
+                e \in { EArr(<<EArr(<<EArr(<<ENum(I(2))>>)>>), EArr(<<DeepV>>)>>), EArr(<<EArr(<<DeepV>>), EArr(<<EArr(<<ENum(I(2))>>)>>)>>),
+                        EArr(<<EArr(<<DeepV>>)>>), EArr(<<EArr(<<EArr(<<DeepV>>)>>), EArr(<<EArr(<<EArr(<<ENum(I(2))>>)>>)>>)>>),
+                        EMap(<<K_k, <<106>>>>, <<EArr(<<EArr(<<ENum(I(2))>>)>>), EArr(<<DeepV>>)>>), EMap(<<K_k, <<106>>>>, <<EArr(<<DeepV>>), EArr(<<EArr(<<ENum(I(2))>>)>>)>>),
+                        EArr(<<EArr(<<EArr(<<ENum(I(2))>>)>>), EArr(<<DeepV>>), EArr(<<EArr(<<>>)>>)>>), EArr(<<EArr(<<>>), EArr(<<DeepV>>)>>), EArr(<<EArr(<<EArr(<<>>)>>), EArr(<<DeepV>>)>>),
+                        EBin("+", EArr(<<EArr(<<EArr(<<ENum(I(2))>>)>>)>>), EArr(<<EArr(<<DeepV>>)>>)) } }
+DeepTargets == {TArr(TArr(TArr(T_any))), TArr(TArr(TArr(T_num))), TArr(TArr(T_any)), TArr(T_any), T_any, TMap(TArr(TArr(T_any))), TMap(T_any)}
+
 MixTargets == {TArr(T_num), TArr(T_any), TArr(T_str), TArr(TArr(T_num)), TArr(TArr(T_any)), TMap(T_num), TMap(T_any), T_any}
 
 Sources == UNION {LitVar(t) : t \in {TArr(T_num), TMap(T_num), TArr(T_any), TArr(TArr(T_num))}} \cup InferredEmptyVar
@@ -132,6 +143,8 @@ ContextCells == UNION {{AssignCell(t, s)} : t \in Universe, s \in Sources}
                 \cup UNION {{FieldCell(t, s), ParamCell(t, s), VariadicCell(t, s), ReturnCell(t, s)} : t \in Universe2, s \in Sources}
                 \cup {InferCell(s) : s \in Sources}
                 \cup {InferCell(s) : s \in MixLits} \cup {AssignCell(t, s) : t \in MixTargets, s \in MixLits}
+                \cup {InferCell(s) : s \in DeepLits} \cup {AssignCell(t, s) : t \in DeepTargets, s \in DeepLits}
+                \cup {ParamCell(t, s) : t \in DeepTargets, s \in DeepLits} \cup {ReturnCell(t, s) : t \in DeepTargets, s \in DeepLits}
 
 \* ---- operators, index, slice, field, assertion, condition, range on variables of given types
 OpTypes == Types1 \cup {TArr(TArr(T_num))}
